@@ -64,7 +64,9 @@ JudgeUnprotect(i, e) ==
          \* (unsupported non-critical payloads in front of the Encrypted payload are skipped, C13: such a datagram does present one;
          \*  it is judged in the M direction only, the echo oracle's spans assume the Encrypted payload at octet 28)
          (IF (LET r == ParseW(w) IN r.ok /\ (LET sup == SelectSeq(r.v.payloads, LAMBDA q : q.k # "UNK") IN Len(sup) > 0 /\ sup[1].k = "SK")) THEN << >>
-          ELSE IF o.decrypts # 0 \/ o.macs # 0 THEN B(i, << "C02" >>, "a key was applied to a datagram that presents no Encrypted payload") ELSE << >>)
+          \* (what matters is that no ciphertext reaches the cipher; walking the chain past a type the header does not let one
+          \*  expect and computing a checksum that then fails is a refusal like any other)
+          ELSE IF o.decrypts # 0 THEN B(i, << "C02" >>, "a cipher was applied to a datagram that presents no Encrypted payload") ELSE << >>)
   ELSE LET su == sas[a.sa].suite il == IcvLen(su.integ)
            hasMac == Has(o, "oracle") /\ Has(o.oracle, "mac") IN
        IF hasMac /\ ~OracleOk(e, a.sa, ~a.role, n) THEN B(i, << "INFRA" >>, "oracle mismatch on unprotect")
